@@ -183,6 +183,8 @@ func (s *ShadowStore) Reset(to map[string]KeyShadow) {
 
 // Handler is the scripted recording proto.Handler.
 type Handler struct {
+	Muted     func() bool // reports that the owning worker is dead: calls are answered but neither judged nor recorded
+	mutedNow  bool
 	Name      string
 	mu        sync.Mutex
 	store     *ShadowStore
@@ -209,6 +211,9 @@ func NewHandlerSharing(name string, st *ShadowStore) *Handler {
 }
 
 func (h *Handler) problem(kind string, format string, a ...any) {
+	if h.mutedNow {
+		return
+	}
 	if len(h.problems) < 16 {
 		h.problems = append(h.problems, Problem{Kind: kind, Detail: fmt.Sprintf(format, a...), Call: len(h.calls)})
 	}
@@ -230,6 +235,11 @@ func (h *Handler) ProcessEventBatch(ctx context.Context, req *handlerpb.ProcessE
 	defer h.mu.Unlock()
 	h.store.mu.Lock()
 	defer h.store.mu.Unlock()
+	// A handler call made by a worker that has been killed does not exist in the modelled execution (the process is
+	// dead; in this test process its goroutines may run on for a moment): it gets its response, nothing is judged or
+	// recorded, the shadow is left alone.
+	h.mutedNow = h.Muted != nil && h.Muted()
+	defer func() { h.mutedNow = false }()
 	call := Call{Seq: len(h.calls), Tick: lib.Tick.Add(1)}
 	if req.Watermark != nil {
 		call.WmSeconds = req.Watermark.Seconds
@@ -303,8 +313,10 @@ func (h *Handler) ProcessEventBatch(ctx context.Context, req *handlerpb.ProcessE
 				h.problem("event-corrupted", "call %d: keyed event value is not a payload: %q", call.Seq, ev.KeyedEvent.Value)
 			}
 			prog = pl.P
-			h.applied[pl.ID]++
-			if h.Check != nil {
+			if !h.mutedNow {
+				h.applied[pl.ID]++
+			}
+			if h.Check != nil && !h.mutedNow {
 				if kind, detail := h.Check(h, key, pl, h.shadow[string(key)]); kind != "" {
 					h.problem(kind, "call %d: %s", call.Seq, detail)
 				}
@@ -348,6 +360,9 @@ func (h *Handler) ProcessEventBatch(ctx context.Context, req *handlerpb.ProcessE
 			}
 		}
 		resp.KeyResults = append(resp.KeyResults, kr)
+		if h.mutedNow {
+			continue
+		}
 		// mutations grouped per namespace are applied namespace by namespace in the order of first
 		// appearance: the fold below must follow what was returned, not the raw instruction order
 		sh := h.shadow[string(key)]
@@ -367,6 +382,9 @@ func (h *Handler) ProcessEventBatch(ctx context.Context, req *handlerpb.ProcessE
 		if len(sh) == 0 {
 			delete(h.shadow, string(key))
 		}
+	}
+	if h.mutedNow {
+		return resp, nil
 	}
 	h.calls = append(h.calls, call)
 	h.cond.Broadcast()
